@@ -300,7 +300,7 @@ K4("k03a_tables", "preflate_constants", "length/distance base and extra tables e
 K4("k04d_zlib_lengths_3", "huffman_calc", "zlib-style Huffman length calculation returns the reference build's code lengths (tie-breaks included)", ["huffman_calc::calc_zlib::calc_bit_lengths", "pqdownheap"],
    "3 symbols, frequencies 0..=3, limit 7", unwind=8, timeout=1500, mem_gb=16, outside="more symbols / larger frequencies: a tie-break change that needs > 4 symbols escapes", tier="experimental")
 K4("k04d_zlib_lengths_single", "huffman_calc", "degenerate cases of the zlib-style length calculation (no symbol, or exactly one symbol used) return the reference build's code lengths: which dummy second symbol completes a one-symbol code is part of the stored format", ["huffman_calc::calc_zlib::calc_bit_lengths"],
-   "6-symbol alphabets with at most one non-zero frequency (any position, any value), limits 15 and 7", unwind=9, unwindset={"zlib_single": 10}, timeout=1500, mem_gb=16, outside="two or more used symbols (k04d_zlib_lengths_3/4, experimental)")
+   "6-symbol alphabets with at most one non-zero frequency (every position, frequencies 1 and 65535: the branch taken depends only on which symbol is used), limits 15 and 7; concrete inputs: the solver decides a constant-folded formula", unwind=9, unwindset={"zlib_single": 10}, timeout=1500, mem_gb=16, outside="two or more used symbols (k04d_zlib_lengths_3/4, experimental)")
 K4("k04d_zlib_lengths_4", "huffman_calc", "as k04d_zlib_lengths_3 with 4 symbols", ["huffman_calc::calc_zlib::calc_bit_lengths"], "4 symbols, frequencies 0..=3, limit 7", unwind=9, timeout=3000, mem_gb=20, tier="experimental")
 K4("k04e_rle_predictor_equiv", "tree_predictor", "predict_code_type / predict_code_data return the reference build's prediction", ["predict_code_type", "predict_code_data"],
    "every slice of 1..=12 code lengths, with/without previous code, every code type", unwind=14, timeout=900)
@@ -411,7 +411,7 @@ H("k03h_dyn_lengths_expand", "huffman_encoding", ["C03", "C07", "C04"], tier="qu
   bounds="three concrete item layouts (HLIT 257 with HDIST 3 / 6 / 15: two long zero runs, explicit lengths, a repeat crossing into the distance code, a short zero run); every code length value 0..=15 symbolic",
   outside="other layouts; the Huffman code built from these lengths (k03d fixed code, k07d)")
 for sfx, shp in (("exact", "predicted counts right: calculator returns 257 / 1 / 19 entries, header HLIT 257, HDIST 1"), ("grow", "predicted counts too small: calculator returns 257 / 1 / 11 entries, header HLIT 286, HDIST 30"), ("shrink", "predicted counts too large: calculator returns 286 / 30 / 4 entries, header HLIT 257, HDIST 1")):
-    H("k02c_tree_mirror_" + sfx, "tree_predictor", ["C02", "C08", "C05"], tier="experimental", unwind=8, unwindset={"tree_mirror_shape": 21, "calc_bit_lengths": 21, "predict_tree_for_block": 21, "recreate_tree_for_block": 21, "predict_code_type": 140, "predict_code_data": 140, "calc_tc_lengths": 21, "calc_codetree_freq": 8, "predict_ld_trees": 8, "reconstruct_ld_trees": 8, "from_elem|resize|extend_with|append|ConvertVec|to_vec": 330, "sum|fold": 8}, timeout=2400, mem_gb=24,
+    H("k02c_tree_mirror_" + sfx, "tree_predictor", ["C02", "C08", "C05"], tier="experimental", unwind=8, unwindset={"tree_mirror_shape": 21, "calc_bit_lengths": 21, "predict_tree_for_block": 21, "recreate_tree_for_block": 21, "predict_code_type": 140, "predict_code_data": 140, "calc_tc_lengths": 21, "calc_codetree_freq": 8, "predict_ld_trees": 10, "reconstruct_ld_trees": 10, "contract_predict_ld": 10, "contract_reconstruct_ld": 10, "ld_digest": 4, "from_elem|resize|extend_with|append|ConvertVec|to_vec": 330, "sum|fold": 8}, timeout=2400, mem_gb=24,
       claim="recreate_tree_for_block(predict_tree_for_block(header)) == header: HLIT / HDIST / HCLEN corrections (in both directions), order of the corrections, run-length items, the code-length code walked in RFC order over HCLEN entries, corrections consumed exactly",
       functions=["tree_predictor::predict_tree_for_block", "tree_predictor::recreate_tree_for_block", "tree_predictor::predict_ld_trees", "tree_predictor::reconstruct_ld_trees", "tree_predictor::calc_codetree_freq", "tree_predictor::calc_tc_lengths_without_trailing_zeros", "predict_code_type", "predict_code_data"],
       bounds=shp + " (sizes and item layout concrete: long zero runs then three explicit code lengths); HCLEN 4..=19, the code-length code, the explicit code lengths and the calculator's non-zero outputs symbolic",
@@ -531,24 +531,24 @@ PROPS = {
     "C01": dict(design_ref="§2 C01", technique=_T + ": the real scanner loop over contract stubs of its callees (cursor arithmetic, tiling, inductive step), the contracts themselves (next_signature, header parsers, parse_idat on concrete chunk layouts), varint / chunk-framing / IDAT-descriptor round trips",
                 level_text="Every lemma the container round trip decomposes into is decided by the SAT solver for all inputs inside the stated byte bounds; composition across lemmas is by argument (DESIGN §C01).",
                 level_note="Bounds per harness in evidence. Outside: the composition of the lemmas (argued in DESIGN), IDAT runs of more than one chunk inside the scanner harness, IDAT parse->recreate identity with the real CRC (experimental). Trusted: Kani/CBMC, contract stubs (each discharged by a named harness), crc32fast shim / cheap checksum flag."),
-    "C02": dict(design_ref="§2 C02", technique=_T + ": mirror-pair lemmas (parameter header over estimator_range, run-length tree mirror, hops inverse and matcher totality over a model chain, the real predict_block/recreate_block as an inductive step over a contract matcher at the HashChainHolder trait seam, stored-block mirror, writer token coding vs an RFC reference decoder)",
+    "C02": dict(design_ref="§2 C02", technique=_T + ": mirror-pair lemmas (parameter header over estimator_range, run-length tree mirror, hops inverse and matcher totality over a model chain, the real predict_block/recreate_block as an inductive step over a contract matcher at the HashChainHolder trait seam, the real encode_mispredictions/decode_mispredictions block loops over contracts of the per-block mirrors, stored-block mirror, writer token coding vs an RFC reference decoder)",
                 level_text="Each encoder/decoder mirror pair is decided for all inputs inside its bound with the arithmetic coder replaced by a transparent recording codec.",
-                level_note="Model hash chain at the HashChain trait seam and a contract object at the HashChainHolder trait seam (real hash tables are out of reach); each contract is discharged by a named harness. Outside: blocks of more than 2 tokens other than through the inductive step (induction argued, not solver-checked), dynamic-block Huffman prediction beyond the run-length mirror, table-based estimators."),
+                level_note="Model hash chain at the HashChain trait seam and a contract object at the HashChainHolder trait seam (real hash tables are out of reach); each contract is discharged by a named harness. Outside: blocks of more than 2 tokens and streams of more than 3 blocks other than through the inductive steps (induction argued, not solver-checked), dynamic-block Huffman prediction beyond the run-length mirror (count / code-length-code part: experimental), table-based estimators."),
     "C03": dict(design_ref="§2 C03", technique=_T + ": differential harness against an RFC 1951 reference decoder written in the harness",
-                level_text="Tables, fixed code, stored blocks, window copy and the top length/distance codes of the real reader equal an independent RFC-1951 reading typed into the harness.",
+                level_text="Tables, fixed code, stored blocks, window copy, the top length/distance codes of the real reader and the code lengths a dynamic block's codes are built from equal an independent RFC-1951 reading typed into the harness.",
                 level_note="Oracle is the in-harness RFC 1951 reference (not zlib itself, which is C). Outside: dynamic block data through the reader; window distances between 65 and 32765; in the quick tier only the top length/distance codes of the reader (all codes in the thorough tier)."),
     "C04": dict(design_ref="§2 C04", technique=_T + ": bounded equivalence of format-defining kernels, current tree vs frozen reference crate",
                 level_text="For each format-defining kernel the solver shows current(x) == reference(x) for all x in the bound; an announced version bump passes.",
-                level_note="Kernel list in evidence (incl. the predict_block correction sequence over a contract matcher); code outside the list (walk order inside the real matcher, table-level chain code, estimators) is not covered."),
+                level_note="Kernel list in evidence (incl. the predict_block correction sequence over a contract matcher, and single queries of the real match search / hop counting over identical candidate lists near and at the window limit); code outside the list (Huffman length calculation with two or more used symbols, table-level chain code, estimators) is not covered."),
     "C05": dict(design_ref="§2 C05", technique=_T + ": Kani panic/overflow/bounds/unwinding checks on scanner loop, parsers, tree predictor, matcher, container, chain position arithmetic",
                 level_text="No panic, overflow, out-of-bounds or unbounded loop for any input inside the bounds, for the harnessed functions.",
                 level_note="Estimators and the real hash-table walk are outside; dev-profile semantics."),
     "C06": dict(design_ref="§2 C06", technique=_T + ": stand-alone lemmas for the failure modes: signature table and signature search, exact gzip header length (RFC 1952), zip data offset, IDAT acceptance, and the real scanner loop over those contracts",
-                level_text="next_signature reports exactly the documented signatures and skips none; skip_gzip_header leaves the cursor at the RFC 1952 header length for every flag subset; parse_zip_stream computes 30 + name + extra for method 8; parse_idat accepts every run with correct checksums; the scanner loop emits an accepted stream at exactly the offset its parser reported.",
+                level_text="next_signature reports exactly the documented signatures and skips none; skip_gzip_header leaves the cursor at the RFC 1952 header length for every flag subset; parse_zip_stream computes 30 + name + extra for method 8 and hands the analysis everything behind the header when the local header carries no size; parse_idat accepts every run with correct checksums; the scanner loop emits an accepted stream at exactly the offset its parser reported and probes every offset outside accepted streams.",
                 level_note="The scanner loop runs over contract stubs (k01s_*), not over real header bytes: the end-to-end form with an offset oracle (k06a/b/c) is experimental and does not finish. Inputs <= 16 (gzip) / 34 (zip) bytes for the header lemmas; acceptance of S by the real analysis is C02's subject."),
     "C07": dict(design_ref="§2 C07", technique=_T + ": stored-block parse -> re-serialise identity; writer token coding vs an RFC 1951 reference decoder (fixed and arbitrary codes); reader on concrete-layout fixed tokens with symbolic extra bits",
                 level_text="Stored blocks: reader then writer reproduces the consumed bytes. Tokens: the writer emits exactly the RFC coding for every literal and (length, distance) incl. 284+31 under the fixed code and under arbitrary code lengths/values; the reader decodes the top length/distance codes with every extra-bit value.",
-                level_note="Fixed tables precomputed natively from the same source (equality under Kani in thorough). Outside: dynamic headers (HuffmanOriginalEncoding::read/write), multi-token reader runs (thorough), lower length/distance codes on the reader side (thorough)."),
+                level_note="Fixed tables precomputed natively from the same source (equality under Kani in thorough). Outside: dynamic header write -> read identity (thorough: k07c; quick has the read postcondition k07e_* and the length expansion k03h), dynamic block data, multi-token reader runs (thorough), lower length/distance codes on the reader side (thorough)."),
     "C08": dict(design_ref="§2 C08", technique=_T + ": C02 mirror lemmas with the parameter vector symbolic over estimator_range",
                 level_text="The mirror lemmas hold for every parameter vector in estimator_range, so reconstruction cannot depend on which one the estimator picked.",
                 level_note="estimator_range predicate is hand-written from recommend() and the config tables and printed in evidence."),
